@@ -1,7 +1,7 @@
 import sys; sys.path.insert(0,'/verif')
 import z3, contracts, specs
 from pvc.models import MODELS
-from pvc import iomodel, hdrmodel, wrmodel, bytesmodel
+from pvc import iomodel, hdrmodel, wrmodel, bytesmodel, npelem
 from pvc.source import Source
 from pvc.verify import Verifier
 key, pat = sys.argv[1], sys.argv[2]
